@@ -247,3 +247,21 @@ def run(ctx):
                          "the %s arm appends to Client.buffer but also forwards something else directly: bytes already pending in the buffer are overtaken and reach the server out of order" % "/".join(codes),
                          direct[0].where() if direct else "")
             r5.check(n_arm >= 3, "buffering-arms", "%d arms of the transaction loop append to Client.buffer (Sync, CopyData, CopyDone/CopyFail)" % n_arm, "expected >= 3 buffering arms, found %d" % n_arm)
+
+    # ---------------- R6 a framed message is read whole
+    r6 = ctx.rule("C03-R6", "read_message returns a message of exactly the announced length: after the header every path to an Ok return passes an exact read (read_exact) of a buffer sized from the length field; "
+                  "partial-read loops with a hand-written termination test are not accepted", floor=2)
+    rmb = ctx.body("pgcat::messages::read_message::{closure#0}", r6)
+    if rmb:
+        oks = [blk for blk, i, st in rmb.assigns() if st["lhs"]["l"] == 0 and not st["lhs"]["p"] and st["rv"]["k"] == "agg" and st["rv"].get("variant") == "Ok"]
+        rex = [c for c in rmb.calls("re:AsyncReadExt::read_exact$|read_exact$")]
+        partial = [c for c in rmb.calls("re:AsyncReadExt::(read_buf|read|read_to_end|take)$")]
+        w = rmb.uncrossed_path([0], oks, blocks=[c.block for c in rex]) if rex else [0]
+        r6.check(bool(rex) and bool(oks) and w is None, "body-read-exact", "every Ok return of read_message follows a read_exact of the body", "read_message can return Ok without an exact read of the body (a short message with a length field that claims more: the rest is then framed as the next message)",
+                 "", w and rmb.describe_path(w))
+        r6.check(not partial, "no-partial-read-loop", "read_message uses no partial reads", "read_message reads the body with partial reads (%s): the termination test is hand-written and not checked here" % sorted({c.name.split("::")[-1] for c in partial}),
+                 partial[0].where() if partial else "")
+        # the buffer handed to read_exact is sized from the length field: resize(.. len ..) precedes it
+        rs = [c for c in rmb.calls("re:BytesMut::resize$")]
+        okr = bool(rs) and bool(rex) and all(rmb.dominates(rs[0].block, c.block) for c in rex) and any(o.kind == "call" and re.search(r"read_i32$", o.call.name) for o in origins(rmb, rs[0].args[1], taint=True))
+        r6.check(okr, "body-sized-from-length", "the body buffer is sized from the length field before it is read", "the buffer read into is not sized from the message's length field")
